@@ -312,7 +312,7 @@ class MovingWindowReduction(ArrayExpr):
 
     @cached_property
     def _meta(self):
-        return np.empty((0,) * self.array.ndim, dtype=self.dtype)
+        return np.zeros((0,) * self.array.ndim, dtype=self.dtype)
 
     @cached_property
     def chunks(self):
@@ -470,7 +470,7 @@ class SlidingWindowReduction(ArrayExpr):
 
     @cached_property
     def _meta(self):
-        return np.empty((0,) * len(self.chunks), dtype=self.dtype)
+        return np.zeros((0,) * len(self.chunks), dtype=self.dtype)
 
     @cached_property
     def chunks(self):
